@@ -3,7 +3,7 @@ import importlib
 
 PROPS = {
     "C13": [("u_discover", "quick"), ("u_topo", "quick"), ("u_diagord", "quick"), ("u_link", "quick")],
-    "C08": [("u_capt", "quick")],
+    "C08": [("u_capt", "quick"), ("u_closenv", "quick")],
     "C05": [("u_scope", "quick")],
     "C17": [("u_dynvis", "quick")],
     "C16": [("u_pkgallow", "quick"), ("u_orphan", "quick"), ("u_topo", "quick")],
